@@ -9,14 +9,14 @@ sys.path.insert(0, VERIF)
 from xv import props  # noqa: E402
 
 TECH = {
-    "C01": "static analysis: CFG dominance / control-dependence rules per reclamation scheme + memory-order contract table",
+    "C01": "static analysis: CFG dominance / control-dependence rules per reclamation scheme, guard typestate, origin analysis of dereferenced pointers in container code + memory-order contract table",
     "C02": "static analysis: K2/K4 path rules (deleter-before-retire, hand-over at thread exit, push re-link), memory-order contract",
     "C03": "static analysis: constant-evaluated memory orders per CFG event vs frozen contract table + live comment graph",
-    "C04": "static analysis: control-dependence and order rules on queue CFGs, finite evaluation of the SCQ tail CAS, memory-order contract",
+    "C04": "static analysis: control-dependence and order rules on queue CFGs, finite evaluation of the SCQ tail CAS, guard-protected CAS expectations (ABA), memory-order contract",
     "C05": "static analysis: cell-protocol path rules, finite evaluation of sequence arithmetic, SCQ settle-slot rule, memory-order contract",
-    "C06": "static analysis: tag-expression discipline over all tagged CAS sites, guarded-action rules, constructor size check vs field width",
+    "C06": "static analysis: tag-expression discipline over all tagged CAS sites, guarded-action rules, validated (head, tail) snapshot rule, exhaustive finite evaluation of the region predicates, constructor size check vs field width",
     "C07": "static analysis: ownership path rules (move-out/destroy pairing, release-after-store, destructor bounds), use-after-move dataflow",
-    "C08": "static analysis: exhaustive finite evaluation of the ordering predicate, erase/insert protocol path rules, use-after-move dataflow",
+    "C08": "static analysis: exhaustive finite evaluation of the ordering predicate, erase/insert protocol path rules, guard-protected CAS expectations (ABA), use-after-move dataflow",
     "C09": "static analysis: exhaustive finite evaluation of the re-scan predicate, iterator guard/paired-field rules",
     "C10": "static analysis: forward must-dataflow (reader validation), marker/version protocol rules, lock pairing, grow ordering",
     "C11": "static analysis: iterator lock typestate and cached-state coherence rules over CFGs",
@@ -24,13 +24,15 @@ TECH = {
     "C13": "static analysis: finite reader/writer table agreement extracted from the CFGs, order rules, memory-order contract",
     "C14": "static analysis: per-instantiation copy coverage from type sizes, protocol order rules, finite evaluation of slot indices",
     "C15": "static analysis: abstract interpretation of -O1 LLVM IR over a bit-provenance domain (all mark widths), order pass-through",
-    "C16": "static analysis: wait-construct detection (quiet CFG cycles on constant tests) + call-graph reachability from documented lock-free operations",
+    "C16": "static analysis: wait-construct detection (quiet CFG cycles whose conditions are invariant under solo execution) + call-graph reachability from documented lock-free operations, finite execution of the weak bounded-queue loop round",
     "C17": "static analysis: adoption-before-allocation, (re)initialisation order, activity-conjunct and thread-exit path rules",
     "C18": "static analysis: slot allocation/release path rules, exhaustion-throws rule, exception-safety order rule (alloc before release)",
 }
 
 
 def main():
+    import subprocess
+    n_fix = sum(1 for l in subprocess.run(["git", "-C", "/repo", "log", "--format=%s"], stdout=subprocess.PIPE, text=True).stdout.splitlines() if l.startswith("fix:"))
     checks = []
     for pid in sorted(props.PROPS):
         evp = os.path.join(VERIF, "evidence", pid + ".json")
@@ -80,8 +82,8 @@ def main():
         "not_applicable": [],
         "notes": "All 18 properties are claimed at level 'other' for their structurally decidable necessary conditions only; the schedule/history-quantified core of "
                  "each property (linearizability, absence of use-after-free under every interleaving, bounded solo steps as a number) is not decidable by static "
-                 "analysis within reach and is stated as not decided in each check's level text and in DESIGN.md section 5. Genuine defects found on the pinned tree "
-                 "were repaired by 14 'fix:' commits in /repo (known_findings.txt lists them as fixed).",
+                 "analysis within reach and is stated as not decided in each check's level text and in DESIGN.md section 6. Genuine defects found on the pinned tree "
+                 "were repaired by %d 'fix:' commits in /repo (known_findings.txt lists them as fixed); one finding (F20, C05) is recorded as known and not repaired." % n_fix,
     }
     json.dump(m, open(os.path.join(VERIF, "MANIFEST.json"), "w"), indent=1)
     print("MANIFEST.json written with %d checks" % len(checks))
